@@ -54,7 +54,11 @@ fn safe_property_getter<'v>(
     property: &KStringCow<'_>,
     runtime: &dyn Runtime,
 ) -> ValueCow<'v> {
-    let variable = parse_variable(property).expect("Failed to parse variable");
+    // A property that is not a valid variable path selects nothing
+    let variable = match parse_variable(property) {
+        Ok(variable) => variable,
+        Err(_) => return ValueCow::Borrowed(&Value::Nil),
+    };
     if let Some(path) = variable.try_evaluate(runtime) {
         try_find(value, path.as_slice()).unwrap_or(ValueCow::Borrowed(&Value::Nil))
     } else {
